@@ -27,6 +27,51 @@ extern "C" void c03_run()
     c03_ev(C03_CTOR_RETURN);
   }
   sim_phase(1);
+  auto do_op = [loop](const C03Op &op) {
+    switch (op.kind) {
+    case C03_OP_START:
+      c03_ev(C03_START_INVOKE);
+      loop->start();
+      c03_ev(C03_START_RETURN);
+      break;
+    case C03_OP_STOP:
+      c03_ev(C03_STOP_INVOKE);
+      loop->stop();
+      c03_ev(C03_STOP_RETURN);
+      break;
+    case C03_OP_IDLE:
+      for (int k = 0; k < op.arg; k++)
+        sim_yield();
+      break;
+    case C03_OP_EXPECT:
+      c03_expect_progress();
+      break;
+    }
+  };
+  if (p->ctrl_in_loop) {
+    // the controller is the loop thread of a second AsyncLoop: each invocation of its body issues the
+    // next operation of the script
+    AsyncLoop *ctrl;
+    {
+      SimTag t(SIM_TAG_SUT);
+      ctrl = new AsyncLoop(
+          [p, do_op]() {
+            int i = c03_ctrl_next();
+            if (i >= 0)
+              do_op(p->ops[i]);
+            else
+              sim_yield();
+          },
+          AsyncLoop::THREAD);
+      ctrl->start();
+    }
+    c03_ctrl_wait_done();
+    {
+      SimTag t(SIM_TAG_SUT);
+      ctrl->stop();
+      delete ctrl;
+    }
+  } else
   for (int i = 0; i < p->nops; i++) {
     const C03Op &op = p->ops[i];
     switch (op.kind) {
